@@ -153,7 +153,7 @@ PROPS = {
     'C09': dict(fn=mk(['R09.', 'R18.', 'R03.pop', 'R07.5', 'R07.6', 'R15.5', 'R08.3'], lambda r: 'threshold-order' not in r['instance'] and 'threshold-no-manual' not in r['instance']), explanation='who writes thresholds and when; explored flag; filter below the root only; filter polarity and theta inheritance; closed list of theta writes with their guards; cache entry fields; mark at pop; must_explore before compiling'),
     'C10': dict(fn=mk(['R10.', 'R07.6', 'R15.5']), explanation='decision tables extracted by path enumeration with literal consistency: partial_cmp loop automaton (9 cases) and value stage (9 cases), cmp polarity, retain closure table, threshold terms, store keys, in-layer filtering protocol'),
     'C11': dict(fn=mk(['R11.']), explanation='SimpleFringe delegation to BinaryHeap with CompareSubProblem(MaxUB); MaxUB lexicographic order and operand order; NoDupFringe: len/is_empty/clear, pop/push pairing (slot recycled, key forgotten, position recorded), swaps update both tables, dedup key derived from state AND depth, merge table of the Occupied arm (9 cases), bubble-up decision on the merged candidate'),
-    'C12': dict(fn=mk(['R12.', 'R15.2', 'R11.d', 'R11.e', 'R06.3']), explanation='provenance (origin terms) of every argument of transition, transition_cost, relax, merge, for_each_in_domain, next_variable; who may call _branch_on; depth counter; merged slice has at least two members'),
+    'C12': dict(fn=mk(['R12.', 'R15.2', 'R11.d', 'R11.e', 'R06.3', 'R08.1']), explanation='provenance (origin terms) of every argument of transition, transition_cost, relax, merge, for_each_in_domain, next_variable; who may call _branch_on; depth counter; merged slice has at least two members'),
     'C13': dict(fn=mk(['R13.']), explanation='squash executed on every expanded layer vector; symbolic length <= max_width at every exit of _restrict/_relax; width guards'),
     'C14': dict(fn=mk(['R14.', 'R02.1'] + C01_RULES, lambda r: (r['rule'] != 'R02.1' or 'improve-only' in r['instance']) and _c01_keep_both(r)), explanation='set_primal strictness table, both fields under one guard; no prune site (pop, enqueue, rough bound, cache filter) discards a node with ub > best_lb; incumbent replaced only on improvement; with a primal of minus infinity the statement is plain optimality, so every optimality rule of C01 / C03 (both solvers) is a necessary condition as well'),
     'C15': dict(fn=mk(['R15.', 'R07.5', 'R08.', 'R12.', 'R06.1', 'R06.2', 'R06.3', 'R09.', 'R02.4', 'R02.5', 'R02.6', 'R13.a', 'R13.b', 'R01.6', 'R01.7'], lambda r: r['rule'].startswith('R15') or r['instance'].startswith('Pooled')), explanation='Pooled: un-impacted nodes are neither expanded nor removed from the pool; depth assigned when a node leaves the pool and at finalisation; a layer is recorded only when non-empty; progress rule (root never handed out) shared with C08; plus every diagram rule instantiated on Pooled (cut-set, local bounds, thresholds, callback protocol, reset, squash)'),
